@@ -38,6 +38,7 @@ pub fn base_cfg(name: &str, leaves: Vec<LeafSpec>, ops: Vec<OpK>, nslots: usize)
         check_snapshot: false,
         check_fresh_diff: false,
         check_ownership: false,
+        check_log: false,
         merged: true,
         update_slots: vec![],
     }
@@ -71,6 +72,14 @@ pub fn machines(opts: &Opts) -> Vec<MCfg> {
             m.seeds = vec![0];
             m.merged = false;
             out.push(m);
+            // handles cloned, flagged and dropped between passes
+            let two: Vec<LeafSpec> = same_shape_leaves(var).into_iter().take(2).collect();
+            let mut m = base_cfg("N1P2F2K1D1/handles-between-passes", two, vec![OpK::Mul], 4);
+            m.bounds = Bounds { builds: 1, passes: 2, flags: 2, clones: 1, drops: 1, depth: 6, ..Bounds::default() };
+            m.seeds = vec![0];
+            m.flag_kinds = vec![0, 1, 2, 3];
+            m.touch_leaves = true;
+            out.push(m);
         }
         Tier::Thorough => {
             let mut m = base_cfg("N3P2C1/core", same_shape_leaves(var), core.clone(), 6);
@@ -101,6 +110,13 @@ pub fn machines(opts: &Opts) -> Vec<MCfg> {
             m.bounds = b(2, 2, 1, 1, 6);
             m.seeds = vec![0];
             m.merged = false;
+            out.push(m);
+            let two: Vec<LeafSpec> = same_shape_leaves(var).into_iter().take(2).collect();
+            let mut m = base_cfg("N2P3F2K1D1/handles-between-passes", two, vec![OpK::Mul, OpK::Neg], 5);
+            m.bounds = Bounds { builds: 2, passes: 3, flags: 2, clones: 1, drops: 1, clears: 1, depth: 8, ..Bounds::default() };
+            m.seeds = vec![0];
+            m.flag_kinds = vec![0, 1, 2, 3];
+            m.touch_leaves = true;
             out.push(m);
         }
     }
